@@ -32,6 +32,7 @@ Step ==
     \/ Ev.op = "set" /\ Set(Ev.k, Ev.v)
     \/ Ev.op = "del" /\ Del(Ev.k) /\ out'.err = Ev.res.err
     \/ Ev.op = "pop" /\ Pop(Ev.k) /\ out'.err = Ev.res.err /\ out'.val = Ev.res.val
+    \/ Ev.op = "popd" /\ PopD(Ev.k, Ev.v) /\ out'.err = Ev.res.err /\ out'.val = Ev.res.val
     \/ Ev.op = "popitem" /\ ~Ev.res.err /\ Ev.res.key \in Keys /\ PopItem(Ev.res.key) /\ out'.val = Ev.res.val
     \/ Ev.op = "popitem" /\ Ev.res.err /\ PopItemEmpty
     \/ Ev.op = "update" /\ Update(Ev.m)
